@@ -185,6 +185,37 @@ def register(reg, ctx):
     for acc, attr in (("get_min_wavelenth", "_min_wavelength"), ("get_max_wavelenth", "_max_wavelength"), ("get_spectral_bins", "_bins"),
                       ("get_delta_wavelength", "_delta_wavelength")):
         reg.contract(LS, "LaserSpectrum." + acc, PROP, ensures=[("returns_named_attribute", "result == self.%s" % attr)], modifies=[])
+    def np_zeros(eng, st, fr, recv, args, kwargs):
+        from pyvc.values import to_int
+        o = eng.new_obj(st, 'ndarray', 'arr', 'real', 1, name='zeros')
+        st.heap['$len'] = z3.Store(eng.field(st, '$len'), o.ref, to_int(args[0]))
+        st.heap['$d1:real'] = z3.Store(eng.field(st, '$d1:real'), o.ref, z3.K(z3.IntSort(), z3.RealVal(0)))
+        return o
+    ARR = {"_wavelengths": "arr:real:1", "_power_spectral_density": "arr:real:1", "_power": "arr:real:1"}
+    reg.contract(LS, "LaserSpectrum._update_cache", PROP, attrs=ARR,
+        externals={'zeros': {'kind': 'custom', 'fn': np_zeros, 'doc': 'numpy.zeros(n)'},
+                   'LaserSpectrum._get_bin_power_spectral_density': {'kind': 'pure', 'result': 'real', 'override': True, 'fname': 'G_G_psd', 'exact_name': True,
+                                                                     'doc': 'per-bin PSD of the concrete spectrum (virtual; verified per subclass)'}},
+        consts={"G_psd": "fn:ref,real,real->real"},
+        ghost={"dl()": "(self._max_wavelength - self._min_wavelength) / self._bins", "lo(k)": "self._min_wavelength + k * dl()"},
+        requires=["self._bins >= 1"],
+        loops={0: dict(invariant=["0 <= index", "forall(k, 0 <= k and k < index, self._wavelengths[k] == self._min_wavelength + (0.5 + k) * dl())",
+                                  "length(self._wavelengths) == self._bins", "self._delta_wavelength == dl()", "not is_none(self._wavelengths)"]),
+               1: dict(invariant=["0 <= index", "wvl_lower == self.wavelengths_mv[0] - delta_wvl_half + index * self._delta_wavelength",
+                                  "delta_wvl_half == self._delta_wavelength * 0.5", "self._delta_wavelength == dl()",
+                                  "forall(k, 0 <= k and k < index, self.power_spectral_density_mv[k] == G_psd(self, "
+                                  "self.wavelengths_mv[0] - delta_wvl_half + k * self._delta_wavelength, "
+                                  "self.wavelengths_mv[0] - delta_wvl_half + k * self._delta_wavelength + self._delta_wavelength))",
+                                  "forall(k, 0 <= k and k < index, self.power_mv[k] == self.power_spectral_density_mv[k] * self._delta_wavelength)",
+                                  "forall(k, 0 <= k and k < self._bins, self._wavelengths[k] == self._min_wavelength + (0.5 + k) * dl())",
+                                  "same(self.wavelengths_mv, self._wavelengths) and same(self.power_spectral_density_mv, self._power_spectral_density) and same(self.power_mv, self._power)",
+                                  "length(self._wavelengths) == self._bins and length(self._power_spectral_density) == self._bins and length(self._power) == self._bins",
+                                  "not same(self._wavelengths, self._power_spectral_density) and not same(self._wavelengths, self._power) and not same(self._power, self._power_spectral_density)"])},
+        ensures=[("delta", "self._delta_wavelength == dl()"),
+                 ("bin_centres", "forall(k, 0 <= k and k < self._bins, self._wavelengths[k] == self._min_wavelength + (0.5 + k) * dl())"),
+                 ("bin_power", "forall(k, 0 <= k and k < self._bins, self._power[k] == self._power_spectral_density[k] * dl())"),
+                 ("bin_psd", "forall(k, 0 <= k and k < self._bins, self._power_spectral_density[k] == "
+                  "G_psd(self, self._wavelengths[0] - dl() * 0.5 + k * dl(), self._wavelengths[0] - dl() * 0.5 + k * dl() + dl()))")])
     reg.contract(MS, "GaussianSpectrum.stddev.setter", PROP, name='constants', sorts={"value": "real"}, raises_any=["ValueError"],
         externals={'LaserSpectrum._update_cache': logged_self('_update_cache')},
         ensures=["self._stddev == value", "self._recip_stddev == 1 / value", "self._normalisation == 1 / (value * sqrt(2 * M_PI))",
